@@ -307,7 +307,15 @@ def case_solve(ctx, rng):
     for s in list(b.blocks):
         if s[0] not in rows:
             del b.blocks[s]
-    if not b.blocks:
+    empty_b = False
+    if b.blocks and rng.random() < 0.06:
+        # the symmetric zero vector: no stored block (the solution is the zero vector of charge
+        # charge(b) - charge(a))
+        for s in list(b.blocks):
+            del b.blocks[s]
+        empty_b = True
+        feats = set(feats) | {"right-hand-side-without-blocks"}
+    if not b.blocks and not empty_b:
         return
     via = rng.choice(["function", "autoray"])
     wit = {"fn": "solve", "via": via, "a": describe(a, True), "b": describe(b, True)}
